@@ -1,18 +1,218 @@
 /-
   Driver/MainC14.lean — line-protocol driver of C14 (one line in, one line out).
-  STUB: to be filled by the C14 work package (see /verif/BUILDING.md).
+  Executes the hand model of proc/comp/{bus,queue,broadcast}.go on the operation lines
+  the Go harness (go/cmd/harness/c14.go) ran on the real code.  The two bus kinds are
+  driven through `Model.BusHist.step` / `Model.SBusHist.step`, i.e. through the very
+  functions Props/C14.lean quantifies over; item ids are the operation index since the
+  last `new` (checked: a line whose id is not the expected one is `bad-op`).
+
+  Lines (`<state>` = what the exported observers show after the operation):
+    sb new | add <id> | tryadd <id> | get | flush | clean
+    bb new <ql> <bl> | add <id> <c> | tryadd <id> <c> | revert <x> <c> | dellast | get
+       | pick <m> <r> | connect <c> | clean
+    bx <ql> <bl> <op>…     a whole BufferedBus history on one line (exhaustive stream; the
+                           answer is the result of the LAST operation + compact state):
+       a<c> t<c> r<x>:<c> d g p<m>:<r> c<c> x
+    sx <op>…               a whole SimpleBus history: a t g f x
+    q new <cap> | push <v> | iter | iterrm <m> <r> | rm <v> | len
+    bc new <count> | notify <v> | read <id> | commit <id> <i>
 -/
 import MajoranaVerif.Driver.Util
+import MajoranaVerif.Model.Bus
+open Model GoInt
 
-def handleC14 (line : String) : String := "todo " ++ line
+namespace Driver.C14
 
-partial def loopC14 (h : IO.FS.Stream) (out : IO.FS.Stream) : IO Unit := do
+def ids (l : List Nat) : String := ",".intercalate (l.map toString)
+
+def optOut : Option Nat → String
+  | some t => s!"{t} 1"
+  | none => "0 0"
+
+def modPred (m r : Nat) : Nat → Bool := fun x => x % m == r
+
+/-! ### SimpleBus -/
+
+def sbState (b : SimpleBus Nat) : String := s!"e={showB b.isEmpty} ca={showB b.canAdd}"
+
+/-- one SimpleBus operation: new state and the operation's own result; `none` = malformed -/
+def sbOp (s : SBusHist.St) (toks : List String) : Option (SBusHist.St × String) :=
+  match toks with
+  | ["add", id] =>
+    if natOf id != s.n then none else some (SBusHist.step s .add, "ok")
+  | ["tryadd", id] =>
+    if natOf id != s.n then none else
+    let s' := SBusHist.step s .tryAdd
+    some (s', s!"ok {showB (s'.added.length != s.added.length)}")
+  | ["get"] =>
+    let s' := SBusHist.step s .get
+    let r := if s'.returned.length != s.returned.length then s'.returned.getLast? else none
+    some (s', s!"ok {optOut r}")
+  | ["flush"] => some (SBusHist.step s .flush, "ok")
+  | ["clean"] => some (SBusHist.step s .clean, "ok")
+  | _ => none
+
+/-! ### BufferedBus -/
+
+def bbState (b : BufferedBus Nat) : String :=
+  s!"q={ids b.queue} pend={b.pendingRead} rem={b.remainingToAdd} ca={showB b.canAdd} cg={showB b.canGet} e={showB b.isEmpty} ex={showB (b.exists_ (modPred 2 1))}"
+
+def lastNew (before after : List Nat) : Option Nat :=
+  if after.length != before.length then after.getLast? else none
+
+/-- one BufferedBus operation: new state and the operation's own result (`none` = malformed) -/
+def bbOp (s : BusHist.St) (toks : List String) : Option (BusHist.St × String) :=
+  match toks with
+  | ["add", id, c] =>
+    if natOf id != s.n then none else some (BusHist.step s (.add (intOf c)), "ok")
+  | ["tryadd", id, c] =>
+    if natOf id != s.n then none else
+    let s' := BusHist.step s (.tryAdd (intOf c))
+    some (s', s!"ok {showB (s'.led.added.length != s.led.added.length)}")
+  | ["revert", x, c] => some (BusHist.step s (.revert (natOf x) (intOf c)), "ok")
+  | ["dellast"] => some (BusHist.step s .deleteLast, "ok")
+  | ["get"] =>
+    let s' := BusHist.step s .get
+    some (s', s!"ok {optOut (lastNew s.led.returned s'.led.returned)}")
+  | ["pick", m, r] =>
+    if natOf m == 0 then none else
+    let s' := BusHist.step s (.pick (modPred (natOf m) (natOf r)))
+    some (s', s!"ok {optOut (lastNew s.led.returned s'.led.returned)}")
+  | ["connect", c] => some (BusHist.step s (.connect (intOf c)), "ok")
+  | ["clean"] => some (BusHist.step s .clean, "ok")
+  | _ => none
+
+/-- compact state of the exhaustive stream: queue/pend,rem/flags -/
+def bbStateC (b : BufferedBus Nat) : String :=
+  s!"{ids b.queue}/{b.pendingRead},{b.remainingToAdd}/{showB b.canAdd}{showB b.canGet}{showB b.isEmpty}{showB (b.exists_ (modPred 2 1))}"
+
+/-- compact tokens of the exhaustive stream -/
+def expand (id : Nat) (t : String) : List String :=
+  let rest := (t.drop 1).toString
+  match t.front with
+  | 'a' => ["add", toString id, rest]
+  | 't' => ["tryadd", toString id, rest]
+  | 'r' => "revert" :: rest.splitOn ":"
+  | 'd' => ["dellast"]
+  | 'g' => ["get"]
+  | 'p' => "pick" :: rest.splitOn ":"
+  | 'c' => ["connect", rest]
+  | 'x' => ["clean"]
+  | _ => ["?"]
+
+/-- a whole history on one line; the answer is that of its LAST operation -/
+def bxLine (ql bl : Int) (ops : List String) : String :=
+  let rec go (s : BusHist.St) (ops : List String) (last : String) : String :=
+    match ops with
+    | [] => last ++ " " ++ bbStateC s.bus
+    | t :: rest =>
+      match bbOp s (expand s.n t) with
+      | none => "bad-op"
+      | some (s', out) => go s' rest out
+  if ops.isEmpty then "bad-op" else go (BusHist.init ql bl) ops ""
+
+def sxExpand (id : Nat) (t : String) : List String :=
+  match t with
+  | "a" => ["add", toString id]
+  | "t" => ["tryadd", toString id]
+  | "g" => ["get"]
+  | "f" => ["flush"]
+  | "x" => ["clean"]
+  | _ => ["?"]
+
+def sxLine (ops : List String) : String :=
+  let rec go (s : SBusHist.St) (ops : List String) (last : String) : String :=
+    match ops with
+    | [] => last ++ " " ++ sbState s.bus
+    | t :: rest =>
+      match sbOp s (sxExpand s.n t) with
+      | none => "bad-op"
+      | some (s', out) => go s' rest out
+  if ops.isEmpty then "bad-op" else go {} ops ""
+
+/-! ### Queue, Broadcast -/
+
+def qState (q : Queue Nat) : String := s!"len={q.len} full={showB q.isFull}"
+
+def qOp (q : Queue Nat) (toks : List String) : Option (Queue Nat × String) :=
+  match toks with
+  | ["push", v] =>
+    if natOf v != q.next then none else
+    let q' := q.push (natOf v)
+    some (q', "ok " ++ qState q')
+  | ["iter"] => some (q, s!"ok [{ids (q.iterator.map (·.2))}] " ++ qState q)
+  | ["iterrm", m, r] =>
+    if natOf m == 0 then none else
+    let (vs, q') := q.iterRemove (modPred (natOf m) (natOf r))
+    some (q', s!"ok [{ids vs}] " ++ qState q')
+  | ["rm", v] =>
+    let q' := q.remove (natOf v)
+    some (q', "ok " ++ qState q')
+  | ["len"] => some (q, "ok " ++ qState q)
+  | _ => none
+
+def bcOp (b : Broadcast Nat) (toks : List String) : Option (Broadcast Nat × String) :=
+  match toks with
+  | ["notify", v] => some (b.notify (natOf v), "ok")
+  | ["read", id] =>
+    match b.read (intOf id) with
+    | .ok (l, b') => some (b', s!"ok [{ids l}]")
+    | .error f => some (b, showFault f)
+  | ["commit", id, i] =>
+    match b.commit (natOf id) (natOf i) with
+    | .ok b' => some (b', "ok")
+    | .error f => some (b, showFault f)
+  | _ => none
+
+structure DState where
+  sb : SBusHist.St := {}
+  bb : BusHist.St := BusHist.init 0 0
+  q : Queue Nat := Queue.new 0
+  bc : Broadcast Nat := { count := 0, listeners := [] }
+
+def handle (d : DState) (line : String) : DState × String :=
+  match words line with
+  | ["sb", "new"] => ({ d with sb := {} }, "ok " ++ sbState ({} : SimpleBus Nat))
+  | "sb" :: rest =>
+    match sbOp d.sb rest with
+    | some (s, out) => ({ d with sb := s }, out ++ " " ++ sbState s.bus)
+    | none => (d, "bad-op")
+  | ["bb", "new", ql, bl] =>
+    let s := BusHist.init (intOf ql) (intOf bl)
+    ({ d with bb := s }, s!"ok in={s.bus.inLength} out={s.bus.outLength} | " ++ bbState s.bus)
+  | "bb" :: rest =>
+    match bbOp d.bb rest with
+    | some (s, out) => ({ d with bb := s }, out ++ " | " ++ bbState s.bus)
+    | none => (d, "bad-op")
+  | "bx" :: ql :: bl :: ops => (d, bxLine (intOf ql) (intOf bl) ops)
+  | "sx" :: ops => (d, sxLine ops)
+  | ["q", "new", cap] =>
+    let q : Queue Nat := Queue.new (intOf cap)
+    ({ d with q := q }, "ok " ++ qState q)
+  | "q" :: rest =>
+    match qOp d.q rest with
+    | some (q, out) => ({ d with q := q }, out)
+    | none => (d, "bad-op")
+  | ["bc", "new", count] =>
+    match Broadcast.new (α := Nat) (intOf count) with
+    | .ok b => ({ d with bc := b }, "ok")
+    | .error f => (d, showFault f)
+  | "bc" :: rest =>
+    match bcOp d.bc rest with
+    | some (b, out) => ({ d with bc := b }, out)
+    | none => (d, "bad-op")
+  | _ => (d, "bad-op")
+
+end Driver.C14
+
+partial def loopC14 (h : IO.FS.Stream) (out : IO.FS.Stream) (d : Driver.C14.DState) : IO Unit := do
   let line ← h.getLine
   if line.isEmpty then return ()
-  out.putStrLn (handleC14 line.trimAscii.toString)
-  loopC14 h out
+  let (d', o) := Driver.C14.handle d line.trimAscii.toString
+  out.putStrLn o
+  loopC14 h out d'
 
 def main : IO Unit := do
   let out ← IO.getStdout
-  loopC14 (← IO.getStdin) out
+  loopC14 (← IO.getStdin) out {}
   out.flush
